@@ -39,7 +39,7 @@ def lp_trace(run, lp):
               swMaxDens=num(sw["max_density"]), swLoss=num(sw["harvest_loss"]),
               wRetail=num((run.get("inputs") or {}).get("waste_retail", w["sf"])),
               sfInitial=q(c["sf_initial"] if add["sf"] else 0.0), store=bool(c["store"]),
-              popNeed=q(c["POP"] * c["KCALS_MONTHLY"] / 1e9),
+              popNeed=q(c["POP"] * c["KCALS_MONTHLY"] / 1e9), monthDays=num(c["KCALS_MONTHLY"] / c["KCALS_DAILY"]),
               capH=cap(c, "HUMANS"), capF=cap(c, "FEED"), capB=cap(c, "BIOFUEL"))
     ev = [dict(ev="Begin", c=rc)]
     feed_key, bio_key = ("feed", "biofuel") if lp["kind"] == "H" else ("max_feed", "max_biofuel")
